@@ -76,9 +76,9 @@ Proof.
 Qed.
 Print Assumptions C01_float_half_unit.
 
-(* floats, E notation: the mantissa has exactly declared-decimals+1 significant digits n, the exponent is e10, and
-   n * 10^(e10 - dd) is within half a unit of the last mantissa digit of the value, exactly; when the (untruncated)
-   text fits the field it reads back as the double nearest to that decimal *)
+(* floats, E notation. The code formats round(x, dd - floor(log10|x|)) -- a double, `sci_val x dd` in the model -- not x itself.
+   (1) "{:.dE}".format(y) of any finite double y: the mantissa has exactly d+1 significant digits n, the exponent is e10, and
+       n * 10^(e10 - d) is within half a unit of the last mantissa digit of y, exactly (a fact about fmtE). *)
 Theorem C01_float_sci_shape : forall up s m e d, exists n e10,
   fmtE up (S754_finite s m e) d = sci_text up s n d e10 /\
   (10 ^ Z.of_nat d <= n < 10 ^ (Z.of_nat d + 1))%Z /\
@@ -86,13 +86,30 @@ Theorem C01_float_sci_shape : forall up s m e d, exists n e10,
 Proof. exact fmtE_shape. Qed.
 Print Assumptions C01_float_sci_shape.
 
+(* (2) a field in E notation whose (untruncated) text fits: the write does not raise, the text is the configured-separator
+       form of that rendering of round(x, ...), with the configured exponent letter, and it reads back as the double nearest
+       to the emitted decimal. That the emitted decimal is within half a unit of x ITSELF for normal doubles and at most 15
+       significant digits, and that it is NOT for subnormals / 16 digits, is in C01real.v (C01_float_sci_half_unit,
+       C01_refuted_sci_half_unit_subnormal, C01_refuted_sci_half_unit_16_digits). *)
 Theorem C01_float_sci : forall f dd up sep s m e, kind f = KFloat dd true up sep -> (sep = [DOT] \/ sep = [44%N]) ->
   fits f (VFloat (S754_finite s m e)) = true ->
-  exists n e10, (10 ^ Z.of_nat dd <= n < 10 ^ (Z.of_nat dd + 1))%Z /\
+  exists n e10, (n = 0 \/ 10 ^ Z.of_nat dd <= n)%Z /\ (0 <= n < 10 ^ (Z.of_nat dd + 1))%Z /\
     float_text true (size f) dd true up sep (S754_finite s m e) = replace [DOT] sep (sci_text up s n dd e10) /\
+    fmtE up (sci_val (S754_finite s m e) dd) dd = sci_text up s n dd e10 /\
     reread f (VFloat (S754_finite s m e)) = VFloat (sf_of_dec s n (e10 - Z.of_nat dd)).
-Proof. exact reread_float_sci. Qed.
+Proof. exact reread_float_sci_range. Qed.
 Print Assumptions C01_float_sci.
+
+Theorem C01_float_sci_fits_not_raises : forall f dd up sep x, kind f = KFloat dd true up sep ->
+  fits f (VFloat x) = true -> missing (VFloat x) = false -> sci_raises x dd = false.
+Proof. exact fits_not_raises. Qed.
+Print Assumptions C01_float_sci_fits_not_raises.
+
+(* when round() overflows (or the value is infinite) the write raises *)
+Theorem C01_float_sci_raises : forall f dd upper sep x, kind f = KFloat dd true upper sep -> missing (VFloat x) = false ->
+  sci_raises x dd = true -> render f (VFloat x) = None.
+Proof. exact render_float_raises. Qed.
+Print Assumptions C01_float_sci_raises.
 
 (* zero (either sign) reads back as itself in both notations *)
 Theorem C01_float_zero : forall f dd sci up sep s, kind f = KFloat dd sci up sep -> (sep = [DOT] \/ sep = [44%N]) ->
